@@ -32,6 +32,14 @@ def cases(rng, n):
                     opts.insert(0, rng.choice(["--x86", "--delta=dist=4", "--arm64"]))
             if rng.random() < 0.4:
                 opts.append("--block-size=%s" % rng.choice(["64KiB", "300KiB", "1MiB", "4MiB"]))
+            elif rng.random() < 0.35:
+                # several filter chains selected per Block: each chain has to fit the limit (or be adjusted) on its own
+                opts.append("--filters1=lzma2:preset=%d,dict=%s" % (rng.randint(0, 6), rng.choice(["1MiB", "8MiB", "32MiB", "64MiB"])))
+                if rng.random() < 0.4:
+                    opts.append("--filters2=delta:dist=4 lzma2:preset=%d,dict=%s" % (rng.randint(0, 3), rng.choice(["256KiB", "16MiB"])))
+                    opts.append("--block-list=0:100KiB,1:100KiB,2:100KiB,1:50KiB")
+                else:
+                    opts.append("--block-list=%s" % rng.choice(["0:200KiB,1:200KiB,0:100KiB", "1:100KiB,0:100KiB", "0:50KiB,1:0"]))
             if rng.random() < 0.25:
                 opts.append("--no-adjust")
             fmt = "xz"
